@@ -57,6 +57,7 @@ var (
 )
 
 func c08Case(g *Gen, code string, targets []*big.Int) {
+	g.Pending("c08", code, encInts(targets))
 	in := cloneInts(targets)
 	ptrs := append([]*big.Int{}, targets...)
 	vals := cloneInts(targets)
@@ -103,6 +104,7 @@ func c08History(g *Gen, code string, targets []*big.Int) {
 		}
 		return c, "ok"
 	}
+	g.Pending("c08", code, encInts(targets))
 	obj := seqAlg(code)
 	first, st1 := run(obj, cloneInts(targets))
 	firstCopy := cloneInts(first)
